@@ -452,6 +452,55 @@ func VerifC08Crash() {
 	verifReach("c08.end")
 }
 
+// VerifC08WriteFault: one write of the run fails (disk full, medium error) - the n-th write call over all
+// files, for every n - while a snapshot and a log are being cached; the process then stops (the failed
+// writer has given up, nothing else is written). A fresh Storer on what is left serves only bytes the
+// cache truly holds: in particular a snapshot whose last chunk was never stored is not offered.
+func VerifC08WriteFault() {
+	verifFS = verifNewFS()
+	verifFS.add(verifBaseDir, &verifNode{dir: true})
+	L := int64(verifParam("LOGSIZE", 2))
+	C := verifParam("CHUNKMAX", 3)
+	base := int64(verifParam("BASE", 98))
+	s := verifNewStorer(L, 0)
+	verifAssert(s.SetRunId("r1") == nil, "C08.set-runid")
+	ctx := context.Background()
+	verifFS.writes = 0
+	verifFS.failWrite = verifRange("failWrite", 1, verifParam("FAULTWRITES", 8))
+	var stream []byte
+	var snaps []verifSnap
+	rchunks, rall := verifChunks("rdb", verifRange("rdbchunks", 1, 2), C)
+	snaps = append(snaps, verifSnap{base, rall})
+	w, err := s.GetRdbWriter(&verifSrc{chunks: rchunks}, base, int64(len(rall)))
+	if err == nil {
+		w.Start()
+		w.Wait(ctx)
+	} else {
+		verifAssert(verifFS.writes >= verifFS.failWrite, "C08.new-rdb-writer")
+	}
+	faulted := verifFS.writes >= verifFS.failWrite
+	if !faulted {
+		chunks, all := verifChunks("a", 2, C)
+		stream = append(stream, all...)
+		aw, err := s.GetAofWritter(&verifSrc{chunks: chunks}, base)
+		if err == nil {
+			aw.Start()
+			aw.Wait(ctx)
+		} else {
+			// (the writer could not even be set up: nothing of the log is cached)
+			verifAssert(verifFS.writes >= verifFS.failWrite, "C08.new-aof-writer")
+		}
+		faulted = verifFS.writes >= verifFS.failWrite
+	}
+	verifCover(faulted, "c08.write-fault")
+	verifFS.failWrite = 0
+	verifFS = verifFS.clone()
+	s2 := verifNewStorer(L, 0)
+	verifAssert(s2.SetRunId("r1") == nil, "C08.reopen")
+	verifCheckServedTruth(s2, base, stream, snaps, "C08.fault.")
+	verifReach("c08.fault-end")
+}
+
 // VerifC08Corrupt: with checksum verification on, a closed segment whose data was altered
 // (any single byte, any other value) or whose recorded size/checksum was altered is refused.
 func VerifC08Corrupt() {
